@@ -34,6 +34,19 @@ FrameEv(e) ==
             /\ Report("canvas", [frame |-> fno, plainOk |-> okN, flashedOk |-> okF,
                                  firstdiff |-> IF ~okN /\ ~okF THEN FirstDiff(e.canvas, scr, FALSE) ELSE -2])
 
+\* the frame a loaded snapshot continues from its own moment e.from_t: every cell the beam reaches clearly later shows
+\* the (unchanged) display file
+PFrameEv(e) ==
+    LET Late(y, c) == T0(m) + 1 + y * Line(m) + c * 4 >= e.from_t + 16
+        Ok(fl) == \A y \in 0..191 : \A c \in 0..31 : Late(y, c) =>
+                    LET bmp == scr[BitmapOff(y, c) + 1]   attr == scr[AttrOff(y, c) + 1]   base == y * 256 + c * 8 IN
+                    \A k \in 0..7 : e.canvas[base + k + 1] = PixelOf(bmp, attr, c * 8 + k, fl)
+    IN \E okN \in {Ok(FALSE)} : \E okF \in {Ok(TRUE)} :
+       LET keep == {p \in phases : IF FlashAt(p, fno) THEN okF ELSE okN} IN
+       /\ fno' = fno + 1
+       /\ IF keep # {} THEN phases' = keep /\ bad' = bad
+          ELSE phases' = 0..31 /\ Report("canvas", [frame |-> fno, plainOk |-> okN, flashedOk |-> okF, firstdiff |-> -4 - e.from_t])
+
 \* a frame observed at a sample of pixels only (every frame of the long watch): same judgement on the sample
 FFrameEv(e) ==
     \E okN \in {\A i \in DOMAIN e.samples : e.samples[i][3] = Pixel(scr, e.samples[i][1], e.samples[i][2], FALSE)} :
@@ -85,6 +98,7 @@ Step(e) ==
       [] e.ev = "skip" -> fno' = fno + e.n /\ UNCHANGED <<m, scr, phases, path, bad>>
       [] e.ev = "frame" -> FrameEv(e) /\ UNCHANGED <<m, scr, path>>
       [] e.ev = "fframe" -> FFrameEv(e) /\ UNCHANGED <<m, scr, path>>
+      [] e.ev = "pframe" -> PFrameEv(e) /\ UNCHANGED <<m, scr, path>>
       [] e.ev = "wframe" -> WFrame(e) /\ UNCHANGED <<m, path>>
 
 TraceNext == l <= Len(Rec) /\ Step(Rec[l]) /\ l' = l + 1
